@@ -49,7 +49,8 @@ static ORDER_MODE: AtomicU32 = AtomicU32::new(0);
 static ORDER_LEN: AtomicU32 = AtomicU32::new(0);
 static ORDER_SEED: AtomicU64 = AtomicU64::new(0);
 
-fn install_hook() {
+pub fn set_order(mode: u32, seed: u64) { ORDER_MODE.store(mode, Ordering::SeqCst); ORDER_SEED.store(seed, Ordering::SeqCst); ORDER_LEN.store(64, Ordering::SeqCst); }
+pub fn install_hook() {
     dds::verif_hooks::set_fragment_hook(Some(Box::new(|event, index| {
         if event != "submit" { return; }
         let mode = ORDER_MODE.load(Ordering::SeqCst);
